@@ -34,7 +34,7 @@ func c17Cells(tier string) []Cell {
 
 	for _, iv := range []int{0, 1} {
 		for _, cb := range []int{0, 1, 3} {
-			for first := 0; first < 9; first++ {
+			for first := 0; first < 10; first++ {
 				cells = append(cells, Cell{ID: c17Cell{Mode: "seq", Interval: iv, Callbacks: cb, First: first}.id()})
 			}
 
@@ -179,7 +179,7 @@ func c17Interval(cc c17Cell) time.Duration {
 func c17Seq(cc c17Cell, env *Env) CellResult {
 	iv := c17Interval(cc)
 	ops := []string{"Invalidate", "Advance(I-1ns)", "Advance(I)", "Advance(I+1ns)", "Advance(1ns)", "Callbacks=nil", "Callbacks=restored",
-		"Invalidate(last callback panics, caller recovers)", "Invalidate(caller context already cancelled)"}
+		"Invalidate(last callback panics, caller recovers)", "Invalidate(caller context already cancelled)", "SkipInterval changed (x3 / back) under the lock"}
 
 	type st struct {
 		h        *c17h
@@ -187,6 +187,7 @@ func c17Seq(cc c17Cell, env *Env) CellResult {
 		accepted bool // at least one accepted call so far
 		cleared  bool // Callbacks currently nil
 		saved    []func(ctx context.Context)
+		cur      time.Duration // the interval currently configured on the instance (0: as constructed)
 	}
 
 	depth := 5
@@ -195,6 +196,11 @@ func c17Seq(cc c17Cell, env *Env) CellResult {
 	}
 
 	apply := func(s *st, op int) (string, bool) {
+		iv := iv // the interval in force: the exported field may be changed on a live instance
+		if s.cur != 0 {
+			iv = s.cur
+		}
+
 		switch op {
 		case 0, 7, 8:
 			now := vclock.NowQuiet()
@@ -284,6 +290,19 @@ func c17Seq(cc c17Cell, env *Env) CellResult {
 			if s.cleared {
 				s.h.inv.Callbacks, s.cleared = s.saved, false
 			}
+		case 9:
+			base := c17Interval(cc)
+
+			s.h.inv.Lock()
+
+			if s.cur == 3*base {
+				s.cur = base
+			} else {
+				s.cur = 3 * base
+			}
+
+			s.h.inv.SkipInterval = s.cur
+			s.h.inv.Unlock()
 		}
 
 		return "ok", true
@@ -313,7 +332,7 @@ func c17Seq(cc c17Cell, env *Env) CellResult {
 					switch d := vclock.NowQuiet().Sub(t); {
 					case t.IsZero():
 						impl = "zero"
-					case d > 2*iv+2:
+					case d > 6*iv+2:
 						impl = "long ago"
 					default:
 						impl = d.String()
@@ -322,15 +341,15 @@ func c17Seq(cc c17Cell, env *Env) CellResult {
 			}
 
 			if !x.accepted {
-				return fmt.Sprint("never", x.cleared, impl)
+				return fmt.Sprint("never", x.cleared, impl, x.cur)
 			}
 
 			d := vclock.NowQuiet().Sub(x.last)
-			if d > 2*iv+2 {
-				d = 2*iv + 2 // beyond the interval all futures coincide
+			if d > 6*iv+2 {
+				d = 6*iv + 2 // beyond (three times) the interval all futures coincide
 			}
 
-			return fmt.Sprint(d, x.cleared, impl)
+			return fmt.Sprint(d, x.cleared, impl, x.cur)
 		},
 	}
 
@@ -564,7 +583,7 @@ func init() {
 	Register(&Prop{
 		ID: "C17", Title: "Invalidator runs all callbacks, at most once per SkipInterval",
 		Cells: c17Cells, Run: c17Run,
-		Rule: "(seq) BFS over sequences of {Invalidate, Invalidate whose last callback panics (caller recovers), Invalidate under an already cancelled context, Advance I-1ns, I, I+1ns, 1ns, Callbacks=nil, Callbacks=restored} for SkipInterval {default 15s, 1s} x callbacks {none,1,3} against the model accepted <=> now-lastAccepted >= I; " +
+		Rule: "(seq) BFS over sequences of {Invalidate, Invalidate whose last callback panics (caller recovers), Invalidate under an already cancelled context, SkipInterval changed on the live instance, Advance I-1ns, I, I+1ns, 1ns, Callbacks=nil, Callbacks=restored} for SkipInterval {default 15s, 1s} x callbacks {none,1,3} against the model accepted <=> now-lastAccepted >= I; " +
 			"(conc) 2-3 threads x 1-2 Invalidate calls plus a clock thread advancing by I-1ns or I, callbacks are harness functions with a scheduling point inside, all schedules within the bound: " +
 			"no overlap, every accepted call runs every callback once in order before it returns, rejected calls run none and every rejection is explained by an accepted run less than SkipInterval earlier, number of accepted calls bounded by the elapsed virtual time",
 		Assumptions: []string{
